@@ -448,6 +448,11 @@ S4_MORE["C20"] += (" plot_seismic_recordings_3c under contract (three axes given
                   "of every recording in order, one line each carrying the samples divided by one common factor (1 without normalisation; positive with it when some sample is "
                   "non-zero), against the recording's own time vector shifted so that the recordings follow one another; accepted style exactly for the recordings the mask accepts "
                   "(all without a mask); a mask of another length is refused; the recordings are not written.")
+S4_MORE["C05"] += (" _distribution_factory on its executed body: for six spellings (any case) x mean / std the pair handed out is the entry of the canonical distribution and of the "
+                  "calculation asked for in the two tables (symbolic); an unknown distribution or calculation is refused.")
+S4_MORE["C15"] += " write_settings_object_to_file: exactly one save() of the object given under the name given."
+S4_MORE["C20"] += (" summarize_spatial_statistics: the table holds the statistics handed in (mean, standard deviation, -1 / +1 values in the requested space; lognormal period row = the "
+                  "reciprocals with the same log-standard deviation); any other distribution refused.")
 for _k, _v in S4_MORE.items():
     S4[_k] = ((S4[_k][0] + " " + _v,) + tuple(S4[_k][1:])) if _k in S4 else (_v, None, None)
 for _pid, (_t, _n, _tech) in S4.items():
